@@ -66,6 +66,7 @@ func TestExplore(t *testing.T) {
 			h := r.ClosePool()
 			if h != nil {
 				t.Logf("Close() hang: selfdeadlock=%v\n%s", h.SelfDeadlock("Close", "OnEvent"), h.Stack)
+				return
 			}
 			time.Sleep(50 * time.Millisecond)
 			dump(t, r, "after pool.Close")
